@@ -12,10 +12,10 @@ LEVEL = "model_checking"
 CODE = ["yowsup/layers/__init__.py:YowLayer/YowProtocolLayer/YowParallelLayer", "yowsup/stacks/yowstack.py:YowStack/YowStackBuilder.getProtocolLayers",
         "every protocol_*/layer.py handler map and guard", "yowsup/layers/axolotl/layer_send.py:send/receive", "yowsup/layers/axolotl/layer_receive.py:receive/onMessage",
         "yowsup/layers/axolotl/layer_control.py:send/receive", "yowsup/layers/auth/layer_authentication.py"]
-BOUNDS = {"quick": "one stanza / entity per run, every kind of the catalogue, fields unconstrained; module selections all, none, each single module off; with encryption layers",
+BOUNDS = {"quick": "one stanza / entity per run, every kind of the catalogue, fields unconstrained; one request outstanding in any one layer with a registry (or none); module selections all, none, each single module off; with encryption layers",
           "thorough": "all 16 module selections x with/without encryption layers"}
 OUTSIDE = ["iq replies (they are routed through the request registries: C08)", "encrypted incoming messages and the envelope contents (C03)",
-           "sequences of stanzas"]
+           "sequences of stanzas (state: at most one outstanding request, in a solver-chosen layer, while the stanza arrives)"]
 ASSUMPTIONS = ["python-axolotl replaced by an ideal manager stub (sessions exist)", "message payloads concrete protobuf per kind, meta attributes symbolic",
                "keep-alive thread disabled (ping interval 0): its behaviour is C16's subject"]
 EXPLANATION = "symbolic execution of the assembled layer set on one stanza/entity with symbolic fields"
